@@ -450,7 +450,7 @@ func (t *State) PlayForMiner(blockid []byte) error {
 // 执行和发送区块
 // PlayAndRepost 执行一个新收到的block，要求block的pre_hash必须是当前vm的latest_block
 // 执行后会更新latestBlockid
-func (t *State) PlayAndRepost(blockid []byte, needRepost bool, isRootTx bool) error {
+func (t *State) PlayAndRepost(blockid []byte, needRepost bool, isRootTx bool) (playErr error) {
 	batch := t.ldb.NewBatch()
 	block, blockErr := t.sctx.Ledger.QueryBlock(blockid)
 	if blockErr != nil {
@@ -458,6 +458,13 @@ func (t *State) PlayAndRepost(blockid []byte, needRepost bool, isRootTx bool) er
 	}
 	t.utxo.Mutex.Lock()
 	defer t.utxo.Mutex.Unlock()
+	defer func() {
+		if playErr != nil {
+			// the transactions played before the failing one have already moved the utxo
+			// and balance caches, but their batch is never written
+			t.ClearCache()
+		}
+	}()
 	// 下面开始处理unconfirmed的交易
 	unconfirmToConfirm, undoDone, err := t.processUnconfirmTxs(block, batch, needRepost)
 	if err != nil {
@@ -667,6 +674,7 @@ func (t *State) Walk(blockid []byte, ledgerPrune bool) error {
 	err = t.procUndoBlkForWalk(undoBlocks, undoDone, ledgerPrune)
 	if err != nil {
 		t.log.Warn("walk fail,because undo block fail", "err", err)
+		t.ClearCache() // the block that failed has been partly undone in the caches only
 		return fmt.Errorf("walk undo block fail")
 	}
 	xTimer.Mark("walk_undo_block")
@@ -675,6 +683,7 @@ func (t *State) Walk(blockid []byte, ledgerPrune bool) error {
 	err = t.procTodoBlkForWalk(todoBlocks)
 	if err != nil {
 		t.log.Warn("walk fail,because todo block fail", "err", err)
+		t.ClearCache() // the block that failed has been partly played in the caches only
 		return fmt.Errorf("walk todo block fail")
 	}
 	xTimer.Mark("walk_todo_block")
